@@ -26,6 +26,7 @@ def catalog(prog, tier):
         'obs': lambda: [V.vc_obs_distance(prog), V.vc_obs_simple(prog)],
         'match_states': lambda: [OC.vc_match_states(prog, k, f) for k, f in (('node', 'base'), ('edge', 'base'), ('edge', 'distance'))],
         'start_nodes': lambda: [OC.vc_create_start_nodes(prog, ue, fam, ex) for ue, fam, ex in ((True, 'base', False), (False, 'base', False), (True, 'distance', False), (True, 'base', True))],
+        'final_choice': lambda: [OC.vc_build_node_path_choice(prog, le) for le in (False, True)],
         'ne_end': lambda: [OC.vc_ne_end(prog, k, f) for k, f in (('node', 'base'), ('edge', 'base'), ('edge', 'distance'))],
         'ne_inner': lambda: [OC.vc_ne_inner(prog, k, f) for k, f in (('node', 'base'), ('edge', 'base'), ('edge', 'distance'))],
         'trans': lambda: [V.vc_trans_distance(prog, o, h) for o in (True, False) for h in (True, False)] +
